@@ -1,6 +1,6 @@
 #!/bin/bash
 # prepare_round.sh Cxx...  -- scratch worktrees + property text + list of already seeded changes for a round of sub-agent mutants
-mkdir -p /tmp/wt; cp /verif/tools/agent/INSTRUCTIONS.md /verif/tools/agent/ROUND5.md /tmp/wt/
+mkdir -p /tmp/wt; cp /verif/tools/agent/INSTRUCTIONS.md /verif/tools/agent/ROUND*.md /tmp/wt/
 for c in "$@"; do git -C /repo worktree add --detach /tmp/wt/$c HEAD -q; done
 python3 - "$@" <<'P'
 import json, glob, sys
